@@ -343,7 +343,9 @@ Definition observe (s : st) : sm_obs :=
           (s_reaped k)
           (if res then n_out n else 0) (if res then n_err n else 0) (n_joins n).
 
-(** [timeout] resolution in [_unify_kwargs_with_config]: the run() keyword if
-    given, else config.timeouts.command (which -T sets). *)
-Definition effective_timeout (kwarg : option nat) (config : option nat) : option nat :=
-  match kwarg with Some v => Some v | None => config end.
+(** [timeout] resolution in [_unify_kwargs_with_config]
+    ([kwargs.pop("timeout", config_timeout)]): the run() keyword if given -- an
+    explicit [timeout=None] counts as given and switches a configured timeout off --
+    else config.timeouts.command (which -T sets).  A timeout of 0 is a timeout. *)
+Definition effective_timeout (kwarg : option (option nat)) (config : option nat) : option nat :=
+  match kwarg with Some v => v | None => config end.
